@@ -13,8 +13,27 @@ import re
 import tokenize
 
 
+_ROLE_WORDS = re.compile(r'actuals?|expected|Actuals?|Expected|reference|Reference|ref_|left|right|Left|Right|min|max|MIN|MAX')
+
+
+class _Canon(ast.NodeTransformer):
+    """and/or over side-effect-free operands is commutative: order the operands by their text with role words
+    blanked out, so that `a and not b_actual` and `not b_expected and a` still line up."""
+
+    def visit_BoolOp(self, node):
+        self.generic_visit(node)
+        pure = all(not any(isinstance(x, (ast.Call, ast.NamedExpr, ast.Await, ast.Yield)) for x in ast.walk(v)) for v in node.values)
+        if pure:
+            node.values = sorted(node.values, key=lambda v: _ROLE_WORDS.sub('', ast.unparse(v)))
+        return node
+
+
 def tokens(node_or_src):
-    src = node_or_src if isinstance(node_or_src, str) else ast.unparse(node_or_src)
+    if isinstance(node_or_src, str):
+        src = node_or_src
+    else:
+        import copy
+        src = ast.unparse(_Canon().visit(copy.deepcopy(node_or_src)))
     out = []
     for t in tokenize.generate_tokens(io.StringIO(src).readline):
         if t.type in (tokenize.NEWLINE, tokenize.NL, tokenize.INDENT, tokenize.DEDENT, tokenize.ENDMARKER,
